@@ -13,7 +13,7 @@ for m in sorted(glob.glob(os.path.join(V, 'seeded', '*', 'meta.json'))):
             first = f[0].split('::', 1)[-1].strip()[:110]
             break
     summary = d.get('summary') or d.get('needs_to_manifest', '').split('\n')[0][:160]
-    rows.append((name, d['property'], 'yes' if d.get('valid') else 'NO', ', '.join(d.get('detected_by', [])) or '—', first, summary))
+    rows.append((name, d['property'], 'yes' if d.get('valid') else 'NO', (', '.join(d.get('detected_by', [])) or '—') + (' (superseded by a repair, last evaluation)' if d.get('superseded') else ''), first, summary))
 with open(os.path.join(V, 'seeded', 'INDEX.md'), 'w') as f:
     f.write('# Seeded changes\n\nWritten by independent sub-agents from the property text only (own scratch worktree, nothing from /verif). '
             'Each was confirmed here: the demonstration exits 0 on the clean tree and 1 with the patch, the pinned test-suite still passes with the patch '
@@ -22,6 +22,6 @@ with open(os.path.join(V, 'seeded', 'INDEX.md'), 'w') as f:
     for r in rows:
         f.write('| %s | %s | %s | %s | %s | %s |\n' % tuple(x.replace('|', '\\|') for x in r))
     det = sum(1 for r in rows if r[3] != '—' and r[2] == 'yes')
-    own = sum(1 for r in rows if r[2] == 'yes' and r[1] in [x.strip() for x in r[3].split(',')])
+    own = sum(1 for r in rows if r[2] == 'yes' and r[1] in [x.strip() for x in r[3].split(' (')[0].split(',')])
     f.write('\n%d confirmed changes, %d rejected in the quick tier: %d by the check of the property they were written against, %d by the check of the property whose clause they break (see the column).\n' % (sum(1 for r in rows if r[2] == 'yes'), det, own, det - own))
 print(open(os.path.join(V, 'seeded', 'INDEX.md')).read()[-600:])
